@@ -87,7 +87,7 @@ def _judge(spec, obs, lines, flavour):
         rec['forced'] = poison.get(rec['rid'])
         if rec['kind'] == 'timeout':
             timed_out += 1
-        bad = c02.judge_call(rec, tree, reqs, spec['capacity'], {'max_backlog': obs.max_backlog})
+        bad = c02.judge_call(rec, tree, reqs, spec['capacity'], {'max_backlog': obs.max_backlog, 'late_tol': None})
         if bad:
             raise Violation('abandoned_' + bad[0], bad[1], signature=['abandoned_' + bad[0]])
     for s in obs.streams:
